@@ -46,6 +46,27 @@ func revsOf(evs []*proto.Event, max int) []uint64 {
 	return out
 }
 
+// snapCase records one result as a Coq case KSnap S oldest newest revisions: c05_check / c05_oracle compare it with
+// what an atomic FindEvents returns on a ring of consecutive revisions (snap_expect; theorem C05_ring_consecutive).
+func snapCase(w *coll, kind string, S, od, nw uint64, evs []*proto.Event, ok bool) {
+	xs := make([]string, len(evs))
+	for i, e := range evs {
+		if e == nil {
+			xs[i] = "None"
+		} else {
+			xs[i] = lib.Some(lib.N(e.Revision))
+		}
+	}
+	oc := "snapshot-consistent"
+	if !ok {
+		oc = "snapshot-inconsistent"
+	}
+	w.Add(lib.Case{Kind: kind, Coq: lib.App("KSnap", lib.N(S), lib.N(od), lib.N(nw), lib.List(xs)),
+		JSON: map[string]interface{}{"op": kind, "S": S, "oldest": od, "newest": nw, "returned": len(evs),
+			"around_first_break": revsOf(evs, 8)},
+		Outcomes: []string{oc}})
+}
+
 // consecutiveFrom reports whether evs are the revisions s, s+1, s+2, ... (no nil entries).
 func consecutiveFrom(evs []*proto.Event, s uint64) bool {
 	for i, e := range evs {
@@ -87,6 +108,7 @@ func ringStress(w *coll, size int, d time.Duration, pace int) (hits, calls int) 
 	deadline := time.Now().Add(d)
 	S := uint64(1)
 	bad := ""
+	sampled := 0
 	func() {
 		defer func() {
 			if rec := recover(); rec != nil {
@@ -105,9 +127,14 @@ func ringStress(w *coll, size int, d time.Duration, pace int) (hits, calls int) 
 					S = ret.Newest.Revision
 				default:
 					hits++
-					if !consecutiveFrom(ret.Events, S) {
+					ok := consecutiveFrom(ret.Events, S) && ret.Events[len(ret.Events)-1].Revision == ret.Newest.Revision
+					if !ok {
 						bad = fmt.Sprintf("ring of %d slots, concurrent appender: FindEvents(%d) returned %d events, around the first break %v (oldest %d, newest %d at the time of the call): not the cached events with revision >= %d in order",
 							size, S, len(ret.Events), revsOf(ret.Events, 8), ret.Oldest.Revision, ret.Newest.Revision, S)
+					}
+					if !ok || (hits%997 == 1 && sampled < 12) {
+						sampled++
+						snapCase(w, fmt.Sprintf("ring-stress-%d", size), S, ret.Oldest.Revision, ret.Newest.Revision, ret.Events, ok)
 					}
 					S = ret.Oldest.Revision + uint64(1+rnd.Intn(24))
 				}
@@ -116,6 +143,8 @@ func ringStress(w *coll, size int, d time.Duration, pace int) (hits, calls int) 
 	}()
 	atomic.StoreInt32(&stop, 1)
 	<-done
+	// the inconsistent result is a Coq case as well (KSnap); its position among the cases depends on timing, so it is
+	// also reported here under a stable id (bin/check confirms failures by id on a second run)
 	if bad != "" {
 		w.Fail(lib.ImplFailure{CaseID: -1, What: bad, Case: map[string]interface{}{"op": "ring-stress", "slots": size}})
 	}
@@ -148,6 +177,7 @@ func bkStress(w *coll, scratch string, cache int, d time.Duration) (hits, calls 
 	rnd := lib.NewRand(uint64(cache))
 	deadline := time.Now().Add(d)
 	bad := ""
+	sampled := 0
 	for time.Now().Before(deadline) && bad == "" {
 		f := ring.VerifFind(1)
 		if f.Empty || f.Oldest == nil {
@@ -172,9 +202,19 @@ func bkStress(w *coll, scratch string, cache int, d time.Duration) (hits, calls 
 			case batch, ok := <-ch:
 				if ok && len(batch) > 0 {
 					hits++
-					if !consecutiveFrom(batch, S) {
+					good := consecutiveFrom(batch, S)
+					if !good {
 						bad = fmt.Sprintf("event cache of %d, back-to-back creator: Watch(S=%d) first delivered %d events, around the first break %v: not S, S+1, ...",
 							cache, S, len(batch), revsOf(batch, 8))
+					}
+					if !good || (hits%97 == 1 && sampled < 12) {
+						sampled++
+						// the catch-up batch is the FindEvents result; its bounds are not visible here: S .. last delivered
+						last := S
+						if e := batch[len(batch)-1]; e != nil {
+							last = e.Revision
+						}
+						snapCase(w, "backend-cache-stress", S, S, last, batch, good)
 					}
 				}
 			case <-time.After(2 * time.Second):
